@@ -125,6 +125,7 @@ def run(check, an: Analysis):
     maps = rules.sequence_maps(collect.node)
     ok_scope = len(withs) == 1 and withs[0] in collect.node.body
     scope_name = withs[0].items[0].optional_vars.id if ok_scope else '?'
+    maps = {k: m for k, m in maps.items() if m.cond is None}
     spawn = [m for m in maps.values() if ast.unparse(m.src) == acts] if acts else []
     spawn_ok = False
     if ok_scope and len(spawn) == 1:
